@@ -23,7 +23,7 @@ FILES = ["f%d" % i for i in range(16)]
 
 
 def prepare(build, tier):
-    return {"vi": build.vi_plain()}
+    return {"vi": build.vi_plain(), "shim": build.shim("fishim")}
 
 
 def budget(tier):
@@ -75,7 +75,15 @@ def case(draw):
         # all 16 buffer slots in use, the modified buffer being the least recently used one
         first = "f0"
         steps = [["mod", "$a\ntfull\n."]] + [["swf", "e! f%d" % i] for i in range(1, 16)] + steps[:draw(st.integers(0, 6))]
-    return {"files": files, "first": first, "steps": steps, "quit": draw(st.sampled_from(["q", "q", "x", "wq"]))}
+    c = {"files": files, "first": first, "steps": steps, "quit": draw(st.sampled_from(["q", "q", "x", "wq"]))}
+    if draw(st.integers(0, 3)) == 0:
+        # write faults (LD_PRELOAD shim of C03) on one of the files: a short count followed by an error, a plain error, ... at some
+        # point of the sequence of open/write/close calls the history makes on that file.  "Successfully written" must then mean
+        # that the file really holds the text.
+        i = draw(st.integers(0, 14))
+        c["fault"] = {"path": draw(st.sampled_from(FILES[:nf])),
+                      "plan": draw(st.sampled_from([[[i, "S3"], [i + 1, "E28"]], [[i, "E28"]], [[i, "S1"], [i + 1, "E5"]], [[i, "E5"], [i + 3, "E28"]], [[i, "S2"]]]))}
+    return c
 
 
 def strategy(tier):
@@ -105,8 +113,12 @@ class Buf:
         self.forced_dirty = False  # after a partial write to the own path
 
 
+UNKNOWN = None      # content of a file after a write that was reported as failed
+
+
 def run_case(env, c):
     d = env.fresh()
+    fpath = (c.get("fault") or {}).get("path")
     disk = {}
     for n, ls in c["files"].items():
         disk[n] = gen.to_bytes(ls)
@@ -116,7 +128,10 @@ def run_case(env, c):
         script.append("ec @@A%d@@\n%s\nec @@B%d@@\nb\nec @@C%d@@\n%%w! snap%d\n" % (i, cmd, i, i, i))
     n = len(c["steps"])
     script.append("ec @@A%d@@\n%s\nec @@ALIVE@@\nb\nec @@D@@\n" % (n, c["quit"]))
-    r = runner.run_editor(env.paths["vi"], ["-s", "-e", c["first"]], "".join(script).encode() + runner.EX_TRAILER, d, want_stats=False)
+    envx = None
+    if c.get("fault"):
+        envx = {"LD_PRELOAD": env.paths["shim"], "NVFI_PATH": c["fault"]["path"], "NVFI_PLAN": ",".join("%d:%s" % (i, k) for i, k in c["fault"]["plan"])}
+    r = runner.run_editor(env.paths["vi"], ["-s", "-e", c["first"]], "".join(script).encode() + runner.EX_TRAILER, d, want_stats=False, env_extra=envx)
     if r.timeout:
         return Outcome(True, False, ["timeout"], inconclusive=True)
     if r.crashed():
@@ -158,6 +173,8 @@ def run_case(env, c):
             # switched (allowed or forced): the buffer left behind keeps its text
             cur = newcur
             if cur not in bufs:
+                if cur in disk and disk[cur] is UNKNOWN:
+                    disk[cur] = snap
                 bufs[cur] = Buf(disk.get(cur, b""))
                 if snap != bufs[cur].text:
                     return fail("newly opened buffer does not hold the file's content", i)
@@ -184,6 +201,8 @@ def run_case(env, c):
                 elif changed:
                     b.hist_known = False
             elif k == "reload":
+                if cur in disk and disk[cur] is UNKNOWN:
+                    disk[cur] = snap
                 if cur in disk:
                     b.ids = b.ids[:b.cur + 1] + [b.nid]
                     b.nid += 1
@@ -204,6 +223,12 @@ def run_case(env, c):
             if k not in ("wmod", "modwmod", "reloadmod"):
                 b.text = snap
         ok_write = "[w]" in msg
+        if fpath and not ok_write and k in ("w", "wmod", "modwmod", "wpart", "wother"):
+            tgt = cmd.split()[-1] if k == "wother" else cur
+            if tgt == fpath:
+                disk[tgt] = UNKNOWN          # cut short somewhere: only a later successful write or a reload tells what it holds
+        if k == "reloadmod" and cur in disk and disk[cur] is UNKNOWN:
+            return Outcome(True, False, ["fault_then_reload_with_command_not_judged"])
         if k in ("wmod", "modwmod", "reloadmod") and newcur == cur:
             if k == "reloadmod":
                 if cur in disk:
@@ -303,6 +328,13 @@ def run_case(env, c):
         if others and not alive:
             info["dirty_probe"] = True
             return fail(":%s exited although buffer(s) %s differ from their files" % (c["quit"], others), n)
+    # (I2) what was reported as successfully written is what the files hold (the file of the buffer current at :x / :wq excepted)
+    for p_, want in sorted(disk.items()):
+        if want is UNKNOWN or (c["quit"] != "q" and p_ == cur):
+            continue
+        have = runner.read_file(d, p_)
+        if (have or b"") != want:
+            return fail("file %s does not hold the text of the last write reported as successful (%d bytes, expected %d)" % (p_, len(have or b""), len(want)), n)
     nt = info["clean_point"] and info["dirty_probe"]
-    cl = ["nbuf_%d" % min(len(bufs), 4)] + (["clean_point"] if info["clean_point"] else []) + (["dirty_probe"] if info["dirty_probe"] else [])
+    cl = (["write_faults"] if fpath else []) + ["nbuf_%d" % min(len(bufs), 4)] + (["clean_point"] if info["clean_point"] else []) + (["dirty_probe"] if info["dirty_probe"] else [])
     return Outcome(True, nt, cl)
